@@ -103,22 +103,7 @@ def fold_constructors(m: Model):
         consulted.append(m.loc(LANG, srt[nm]) + f' {nm}.sorting')
 
     def coords_cls(nm, fields):
-        class C(tuple):
-            _fields = fields
-
-            @classmethod
-            def _make(cls, vals):
-                return cls(tuple(vals))
-
-            def sorting(self):
-                return it2.call(srt[nm], [self])
-
-            def Sorting(self, *vals):
-                return tuple(vals)
-        for i, f in enumerate(fields):
-            setattr(C, f, property(lambda s_, i=i: tuple.__getitem__(s_, i)))
-        C.__name__ = nm
-        return C
+        return coords_mirror(m, nm)[0]
     it2 = Interp(dict(object=Obj('object', __new__=lambda cls: Obj('item', _cls=cls), __setattr__=setattr), check=Obj('check', inst=lambda *a_: None),
                       ValueError=ValueError, TypeError=TypeError, AttributeError=AttributeError, zip=zip, len=len), where='lang/lex.py CoordsItem.__new__')
     for nm, fields, rank, specs in (('BiCoords', ('index', 'subscript'), RC, [(0, 0), (1, 0), (0, 1), (1, 1), (0, 2)]),
@@ -313,3 +298,28 @@ def fold_argument(m: Model):
     except EXC as e:
         results.append((False, 'Argument.hash', f'raises {e}'))
     return results, consulted
+
+
+def coords_mirror(m: Model, name, it=None):
+    """A namedtuple mirror of lang.BiCoords / TriCoords (fields and the nested Sorting tuple read from the class body) whose
+    sorting() is the repository's definition, folded."""
+    import collections
+    cd = m.clsdef(ClassRef(LANG, name))
+    fields = [st.target.id for st in cd.body if isinstance(st, ast.AnnAssign) and isinstance(st.target, ast.Name)]
+    scd = next((st for st in cd.body if isinstance(st, ast.ClassDef) and st.name == 'Sorting'), None)
+    if not fields or scd is None:
+        raise AnalysisError(f'{name}: fields / Sorting not readable')
+    sfields = [st.target.id for st in scd.body if isinstance(st, ast.AnnAssign) and isinstance(st.target, ast.Name)]
+    Sorting = collections.namedtuple('Sorting', sfields)
+    srt = m.func(LANG, f'{name}.sorting')
+    it = it or Interp({}, where=f'lang/__init__.py {name}.sorting')
+    Base = collections.namedtuple(name, fields)
+
+    class C(Base):
+        __slots__ = ()
+
+        def sorting(self):
+            return it.call(srt, [self])
+    C.Sorting = Sorting
+    C.__name__ = name
+    return C, srt
